@@ -431,48 +431,7 @@ func runC05(c *kit.Ctx) {
 	buffersAreFreedAfterTheWrite(c)
 	everyWriteErrorIsReported(c)
 	c.Table("C05.R6: sendHello's write is exempt (runs inside dialOnce before the connection goroutines exist; re-checked by R7)")
-	{
-		le := kit.NewLockEnv(p)
-		clientT := p.Named("region", "client")
-		var sites []ssa.CallInstruction
-		sites = append(sites, connWrites(p, send)...)
-		var common map[*types.Var]bool
-		for _, s := range sites {
-			held := le.At(s)
-			mine := map[*types.Var]bool{}
-			for k := range held {
-				if !k.R && fieldOf(clientT, k.Field) {
-					mine[k.Field] = true
-				}
-			}
-			if common == nil {
-				common = mine
-			} else {
-				for f := range common {
-					if !mine[f] {
-						delete(common, f)
-					}
-				}
-			}
-			if len(mine) > 0 {
-				c.OK(send, "write-under-lock", s.Pos(), "connection write with a client mutex held "+held.String())
-			} else {
-				c.Bad(send, "write-under-lock", s.Pos(), "connection write under no lock: send runs on the batching goroutine and on arbitrary caller goroutines (QueueRPC -> trySend); a frame with cellblocks is a gather write that becomes one Write per buffer on a net.Conn that is not a kernel socket, so frames of concurrent senders interleave on the wire", "")
-			}
-		}
-		allHeld := true
-		for _, s := range sites {
-			if len(le.At(s)) == 0 {
-				allHeld = false
-			}
-		}
-		if len(sites) >= 2 && common != nil && allHeld {
-			c.Check(len(common) > 0, send, "same-lock", send.Pos(), "both write forms are serialised by the same mutex", "the two write forms in send are guarded by different mutexes")
-		}
-		if len(sites) == 0 {
-			c.Unk(send, "write-sites", send.Pos(), "no connection write found in send")
-		}
-	}
+	connectionWritesAreSerialised(c)
 	writeErrorIsFatal(c, send)
 
 	// ---- R7 ---------------------------------------------------------------
@@ -700,5 +659,58 @@ func cellblocksInActionOrder(c *kit.Ctx, multiTP *ssa.Function) {
 			})
 		})
 		c.Check(good, multiTP, "cellblocks-in-action-order", multiTP.Pos(), "each region's cellblocks are appended in the same iteration (of the one loop over the grouping map) that emits its region action", "the cellblocks are appended in a different iteration order than the region actions (two separate range loops over a map pick independent orders): the cells of one region's mutations are attached to another region's mutations while all lengths stay consistent")
+	}
+}
+
+// connectionWritesAreSerialised: every write on the connection in send happens with a mutex of the client held, the
+// same one for both write forms: send runs on the batching goroutine and on arbitrary caller goroutines, and the
+// connection is shared by all regions of the regionserver. C05.R6, C20.R2.
+func connectionWritesAreSerialised(c *kit.Ctx) {
+	p := c.P
+	send := c.Anchor("region", "client", "send")
+	if send == nil {
+		return
+	}
+	{
+		le := kit.NewLockEnv(p)
+		clientT := p.Named("region", "client")
+		var sites []ssa.CallInstruction
+		sites = append(sites, connWrites(p, send)...)
+		var common map[*types.Var]bool
+		for _, s := range sites {
+			held := le.At(s)
+			mine := map[*types.Var]bool{}
+			for k := range held {
+				if !k.R && fieldOf(clientT, k.Field) {
+					mine[k.Field] = true
+				}
+			}
+			if common == nil {
+				common = mine
+			} else {
+				for f := range common {
+					if !mine[f] {
+						delete(common, f)
+					}
+				}
+			}
+			if len(mine) > 0 {
+				c.OK(send, "write-under-lock", s.Pos(), "connection write with a client mutex held "+held.String())
+			} else {
+				c.Bad(send, "write-under-lock", s.Pos(), "connection write under no lock: send runs on the batching goroutine and on arbitrary caller goroutines (QueueRPC -> trySend); a frame with cellblocks is a gather write that becomes one Write per buffer on a net.Conn that is not a kernel socket, so frames of concurrent senders interleave on the wire", "")
+			}
+		}
+		allHeld := true
+		for _, s := range sites {
+			if len(le.At(s)) == 0 {
+				allHeld = false
+			}
+		}
+		if len(sites) >= 2 && common != nil && allHeld {
+			c.Check(len(common) > 0, send, "same-lock", send.Pos(), "both write forms are serialised by the same mutex", "the two write forms in send are guarded by different mutexes")
+		}
+		if len(sites) == 0 {
+			c.Unk(send, "write-sites", send.Pos(), "no connection write found in send")
+		}
 	}
 }
